@@ -92,7 +92,7 @@ def run(tier):
 
         def on(res, name=name, t=t):
             devs = schedlib.delays_str(res["devs"])
-            rep = {"stream": name, "args": STREAMS[name], "threads": t, "delays": devs, "stalls": res.get("stalls") or []}
+            rep = {"stream": name, "args": STREAMS[name], "threads": t, "delays": devs, "stalls": res.get("stalls") or [], "policy": res.get("policy", 0)}
             if res.get("stalls"):
                 devs = "stall at %s" % res["stalls"]
             out = res.get("out") or {}
@@ -133,6 +133,15 @@ def run(tier):
                             "stall_distinct_traces": len(S["trace_hashes"])})
             if not S["complete"]:
                 exhaustive = False
+            if tier == "thorough":   # the same sweep from the mirrored canonical order (descending thread ids)
+                S1 = schedlib.stall_sweep(exe, [streams_[name], "threads=%d" % t], on, time.time() + max(10, share), timeout=120, policy=1)
+                tot_exec += S1["executions"]
+                tot_trans += S1["transitions"]
+                traces += len(S1["trace_hashes"])
+                stall_total += S1["executions"] - 1
+                per[-1].update({"stall_schedules_policy1": S1["executions"] - 1, "stall_sweep_policy1_complete": S1["complete"]})
+                if not S1["complete"]:
+                    exhaustive = False
     # memory safety: canonical and mirrored schedule for 1..16 threads in the sanitizer build
     asan_runs = 0
     env = {"ASAN_OPTIONS": "detect_leaks=0:halt_on_error=0:exitcode=0", "UBSAN_OPTIONS": "print_stacktrace=1:halt_on_error=0"}
